@@ -337,7 +337,10 @@ func pairwiseShapes(nScopes int) []svcShape {
 
 // ---------- expectations (what the valuation declares) ----------
 
-type expArg struct{ Code string }
+type expArg struct {
+	Code string
+	Kind string // expected dependency kind as the wiring parser classifies the generated expression
+}
 type expCall struct {
 	Method    string
 	Immutable bool
@@ -394,6 +397,7 @@ type skelBuilder struct {
 	imp     *skelImporter
 	fset    *token.FileSet
 	allArgs map[string]int
+	lastKind string
 }
 
 func newSkelBuilder(e *Env) *skelBuilder {
@@ -420,6 +424,9 @@ func newSkelBuilder(e *Env) *skelBuilder {
 }
 
 // nextArg returns the code and raw value of the next argument form (round robin over all forms).
+// formKinds: the dependency kind each argument form must be parsed back as (index = form number).
+var formKinds = []string{"value", "service", "tag", "value", "value", "value", "value", "value", "container", "param", "string", "string", "concat", "func", "func", "func", "func", "value", "value", "value", "value"}
+
 func (b *skelBuilder) nextArg(al tplabs.Aliaser, svcNames []string) (code string, raw any) {
 	f := b.fr
 	b.argSeq++
@@ -461,6 +468,7 @@ func (b *skelBuilder) nextArg(al tplabs.Aliaser, svcNames []string) (code string
 	}
 	i := b.argSeq % len(forms)
 	b.allArgs[fmt.Sprintf("form-%02d", i)]++
+	b.lastKind = formKinds[i]
 	return forms[i]()
 }
 
@@ -470,7 +478,7 @@ func (b *skelBuilder) args(al tplabs.Aliaser, n int, names []string) ([]any, []e
 	for i := 0; i < n; i++ {
 		code, raw := b.nextArg(al, names)
 		spec = append(spec, map[string]any{"Code": code, "Raw": raw})
-		exp = append(exp, expArg{code})
+		exp = append(exp, expArg{code, b.lastKind})
 	}
 	return spec, exp
 }
